@@ -194,6 +194,16 @@ class Ev:
         if name == "into_iter": return [(P, recv if recv is not None else args[0])]
         if name == "len" and isinstance(recv, Slice): return [(P, recv.len())]
         if name == "len" and isinstance(recv, Rows): return [(P, recv.r1 - recv.r0)]
+        if name == "len" and (fn.get("trait") or "").endswith("ExactSizeIterator") and isinstance(recv, (list, tuple)) and any(isinstance(x, Rows) for x in recv):
+            # the adaptor's own len(): size_hint's conformance (f3) says it is the number of remaining cells
+            tot = ZERO
+            for x in recv:
+                if isinstance(x, Rows): tot = tot + (x.r1 - x.r0) * C
+                elif isinstance(x, Adt) and x.variant == "Some" and x.f and isinstance(s.deref_val(P, x.f[0]), Slice): tot = tot + s.deref_val(P, x.f[0]).len()
+                elif isinstance(x, Adt) and x.variant == "None": pass
+                elif isinstance(x, Slice): tot = tot + x.len()
+                else: raise Inconclusive("len of %r" % (recv,))
+            return [(P, tot)]
         if name == "min" and path == "core::cmp::Ord::min":
             a, b = args; outs = []
             for cond, v in ((Cond("<=", a - b), a), (Cond(">", a - b), b)):
